@@ -130,7 +130,8 @@ def compare(pr, got):
     gc = c01.usort(c01.canon_cond(c) for c in got["goal_conds"])
     if ec != gc:
         from pv.props.c20 import dedupe_fterms, F_FREPEAT
-        if ctx.active(F_FREPEAT) and json.dumps(c01.usort(json.loads(json.dumps(dedupe_fterms(ec))))) == json.dumps(c01.usort(json.loads(json.dumps(dedupe_fterms(gc))))):
+        dd = lambda conds: c01.usort(c01.canon_cond(x) for x in json.loads(json.dumps(dedupe_fterms(conds))))
+        if ctx.active(F_FREPEAT) and dd(ec) == dd(gc):
             d.append(("KNOWN", F_FREPEAT, None))
         else:
             d.append(("goal-conditions", ec, gc))
